@@ -330,7 +330,7 @@ def _expr_simp(e):
                     return new_e
         # XXXX todo hum, is it safe?
         elif isinstance(e.arg, ExprMem) and e.start == 0 and e.arg.size > e.stop and e.stop %8 == 0:
-            e = ExprMem(e.arg.arg, size = e.stop)
+            e = ExprMem(e.arg.arg, size = e.stop, segm = e.arg.segm)
             return e
 
         return e
